@@ -930,6 +930,41 @@ def _size_class(k):
             "41-400" if k <= 400 else "401-1500" if k <= 1500 else ">1500")
 
 
+def _refilter_phase(ctx, env, rng, G, feats):
+    """History on ONE dataset instance: results were computed, now the filter changes and the
+    same analyses are asked again. The inline oracles (definitions / reference estimators)
+    judge every call against the selection that is current at call time, so a result that
+    still reflects the previous filter is flagged."""
+    from dclab import statistics
+    from vmon import boot
+    ds = env.ds
+    for rep in range(2):
+        man = ds.filter.manual
+        flip = rng.random(len(man)) < rng.uniform(0.1, 0.6)
+        man[flip] = ~man[flip]
+        if rng.random() < 0.3:
+            f = feats[int(rng.integers(0, len(feats)))]
+            col = env.cols[f][np.isfinite(env.cols[f].astype(float))]
+            if col.size:
+                lo, hi = np.sort(rng.choice(col, 2))
+                ds.config["filtering"][f + " min"] = float(lo)
+                ds.config["filtering"][f + " max"] = float(hi)
+        ds.apply_filter()
+        ctx.count("refilter_on_same_instance")
+        methods, features = G.gen_stat_args(rng, feats)
+        _observe(ctx, ds, "orig",
+                 lambda d: statistics.get_statistics(d, methods=methods, features=features), True)
+        if len(feats) >= 2:
+            kde = str(rng.choice(["histogram", "gauss", "multivariate"]))
+            _observe(ctx, ds, "orig",
+                     lambda d: d.get_kde_scatter(xax=feats[0], yax=feats[1], kde_type=kde), True)
+        path = boot.scratch() / f"c12-{os.getpid()}-{ctx.case}-refilter.tsv"
+        env.tmp.append(path)
+        tf = G.gen_tsv_features(rng, feats)
+        _observe(ctx, ds, "orig",
+                 lambda d: d.export.tsv(path, tf, filtered=True, override=True), True)
+
+
 def run_rand(ctx):
     from vmon.gen import c12_gen as G
     thorough = ctx.tier == "thorough"
@@ -985,6 +1020,8 @@ def run_rand(ctx):
                 op_tsv(ctx, env, G.gen_tsv_features(rng, feats), False, "u")
             if 0 < nsel < n and _S.case_info.get("_compared"):
                 ctx.mark_nontrivial(_case_digest(env.cols, env.sel))
+            if n >= 2 and not big and rng.random() < 0.4:
+                _refilter_phase(ctx, env, rng, G, feats)
             if idx % 61 == 0:
                 ctx.sample({"kind": "rand", "case": idx, "n": n, "n_selected": nsel,
                             "format": fmt, "shapes": shapes,
